@@ -340,7 +340,9 @@ fn op_sys(payload: &str) -> String {
     };
     let trace = resvg::verif_hooks::take_trace();
     let d = pm.data();
-    let bx = parse_box(f[6]);
+    // one box, or several separated by ';' (inside = inside any of them)
+    let boxes: Vec<[i64; 4]> = f[6].split(';').filter_map(parse_box).collect();
+    let bx = if boxes.is_empty() { None } else { Some(boxes[0]) };
     let (mut outside, mut invalid, mut nonblank) = (0usize, 0usize, 0usize);
     let mut outside_at = String::from("null");
     let mut invalid_at = String::from("null");
@@ -358,8 +360,8 @@ fn op_sys(payload: &str) -> String {
                 }
                 invalid += 1;
             }
-            if let Some(bb) = bx {
-                let inside = x >= bb[0] && x < bb[2] && y >= bb[1] && y < bb[3];
+            if bx.is_some() {
+                let inside = boxes.iter().any(|bb| x >= bb[0] && x < bb[2] && y >= bb[1] && y < bb[3]);
                 if !inside && (a != 0 || r != 0 || g != 0 || b != 0) {
                     if outside == 0 {
                         outside_at = format!("[{},{},{}]", x, y, a);
